@@ -5,7 +5,7 @@ from ..common import seed_rng
 from ..meshgen import INITIAL_GRIDS, Batch, enumerate_histories, random_op
 from ..meshlib import oracle_mesh, PyMesh
 
-PROP_MODS = ['Stbem.Props.C02']
+PROP_MODS = ['Stbem.Props.C02', 'Stbem.Props.C02Closure']
 RULE = ('lock-step correspondence of src/mesh.py (run on Fraction coordinates) with the Lean A-layer model: after '
         'every operation the full state (leaves in order with coordinates, levels, index, parent; vertex list; '
         'reported neighbours per side in order; boundary/seam flags; element counter) must be identical. '
